@@ -291,7 +291,7 @@ Inductive label :=
 (* reader *)
 | RdCallReq1 (id : Z) (full : bool)   (* call req read: state check (not Active -> SendSystemError(ErrChannelClosed)) *)
 | RdCallReq2 (ok full : bool)         (* parse (ok) + newExchange; duplicate / shut-down set -> protocolError's frame *)
-| RdCallReq3                          (* state re-check; go dispatchInbound *)
+| RdCallReq3 (full : bool)            (* state re-check; go dispatchInbound, or decline (SendSystemError ErrChannelClosed; full: send buffer full) *)
 | RdProtoClose                        (* protocolError: c.close *)
 | RdProtoStop                         (* protocolError: stopExchanges *)
 | RdCancel (id : Z)                   (* cancel frame read *)
@@ -451,14 +451,17 @@ Definition step (st : state) (l : label) : option state :=
             else Some (set_rd (set_calls st (put id new_call (calls st))) (RAdded id))
       | _ => None
       end
-  | RdCallReq3 =>
+  | RdCallReq3 full =>
       match rd_pc st with
       | RAdded id =>
           with_call st id (fun c =>
             match cst st with
             | CActive => Some (set_rd (commit st id (upd_pc c PNotStarted) false) RIdle)
-            | _ => let '(c1, chk) := shut_call c in
-                   Some (set_rd (commit st id (upd_pc c1 PDead) chk) RIdle)
+            | _ => (* Close landed between the state check and here: the call is declined like a call
+                      arriving on a closing connection (error frame first), then the exchange is shut down *)
+                   let st1 := fst (conn_send_syserr st id full) in
+                   let '(c1, chk) := shut_call c in
+                   Some (set_rd (commit st1 id (upd_pc c1 PDead) chk) RIdle)
             end)
       | _ => None
       end
@@ -553,7 +556,7 @@ Fixpoint handler_ok (id : Z) (term : bool) (ls : list label) : bool :=
 Definition dec_label (op a b : Z) : option label :=
   if op =? 1 then Some (RdCallReq1 a (bz b)) else
   if op =? 2 then Some (RdCallReq2 (bz a) (bz b)) else
-  if op =? 3 then Some RdCallReq3 else
+  if op =? 3 then Some (RdCallReq3 (bz b)) else
   if op =? 4 then Some RdProtoClose else
   if op =? 5 then Some RdProtoStop else
   if op =? 6 then Some (RdCancel a) else
